@@ -205,7 +205,11 @@ func (vc *VC) readVar(st *State, o *types.Var) Term {
 		name := vc.globalName(o)
 		srt := sortOfType(o.Type())
 		if isErrorType(o.Type()) || strings.HasPrefix(o.Name(), "Err") {
-			// error sentinels are treated as constants: non-nil, pairwise distinct by name
+			// error sentinels are treated as constants: non-nil, pairwise distinct by name;
+			// `var ErrX = otherpkg.ErrX` is the same sentinel as the one it is initialised from
+			if a := vc.prog.sentinelAlias(o, 0); a != nil {
+				name = vc.globalName(a)
+			}
 			return vc.sentinel(name)
 		}
 		return vc.heapGet(st, name, srt)
